@@ -152,11 +152,7 @@ func (d *Decls) structOf(t types.Type) *structInfo {
 		return si
 	}
 	st := t.Underlying().(*types.Struct)
-	si := &structInfo{id: fmt.Sprintf("S%d", len(d.structList)), t: st, named: key}
-	// give readable ids for named types
-	if n, ok := t.(*types.Named); ok {
-		si.id = fmt.Sprintf("S%d_%s", len(d.structList), sanitize(n.Obj().Name()))
-	}
+	si := &structInfo{id: structSortName(t), t: st, named: key}
 	d.structs[key] = si
 	d.structList = append(d.structList, si)
 	var fs []string
@@ -441,4 +437,15 @@ func declaredInRepo(t types.Type) bool {
 		return false
 	}
 	return inRepo(n.Obj().Pkg().Path())
+}
+
+// structSortName: deterministic SMT datatype name of a Go struct type (stable across runs and functions,
+// so that spec files can name it through "gosort").
+func structSortName(t types.Type) string {
+	key := typeKey(t)
+	name := "anon"
+	if n, ok := t.(*types.Named); ok {
+		name = n.Obj().Name()
+	}
+	return fmt.Sprintf("S_%s_%x", sanitize(name), hashStr(key))
 }
